@@ -50,7 +50,7 @@ func streamSpecAt(name string, n, max int, mixed bool, prefix string) *spec.Spec
 func c17(args []string) {
 	c := chk.New("C17", "exploration", args)
 	c.Build(false)
-	c.Rule("producer/consumer pairs connected by an {os:..} port: n in {1,2,4} (and 12, 24, 40 with the producers exiting last) streamed items with maxConcurrentTasks in 2n..2n+2 (the producer's regular output, when it has one, feeds a consumer of its own), payload sizes {0,1,4095,65536,65537,1 MiB} (below and above the pipe buffer), exit order forced both ways (producer or consumer lingers after closing its files), producers with only a streaming output and with an additional regular output, producer and consumer taking different numbers of slots with maxConcurrentTasks exactly their sum, two producer processes streaming into one in-port of the consumer, consumers with an ordinary in-port beside the streamed one, SCIPIPE_BUFSIZE and yield seeds varied; history 'complete run, then run again'; oracle: sha256 the consumer read through the FIFO == sha256 the producer wrote (both logged by the commands), consumer output == reference, at the instant Run returns no FIFO and no regular file at the stream path, consumer audit names the producer under Upstream[stream path], hang classification incl. FIFO-blocked children (wchan), re-run terminates and leaves inode/mtime/bytes of consumer outputs untouched. distinct_nontrivial = distinct (n, max, size, exit order, mixed, config) runs whose byte comparison was made")
+	c.Rule("producer/consumer pairs connected by an {os:..} port: n in {1,2,4} (and 12, 24, 40 with the producers exiting last) streamed items with maxConcurrentTasks in 2n..2n+2 (the producer's regular output, when it has one, feeds a consumer of its own), payload sizes {0,1,4095,65536,65537,1 MiB} (below and above the pipe buffer), exit order forced both ways (producer or consumer lingers after closing its files), producers with only a streaming output and with an additional regular output, producer and consumer taking different numbers of slots with maxConcurrentTasks exactly their sum, two producer processes streaming into one in-port of the consumer, consumers with an ordinary in-port beside the streamed one, every third producer also prints 220 kB to stdout / stderr, the re-run histories put the consumer's own output below plain / nested / parent-relative / absolute directories, SCIPIPE_BUFSIZE and yield seeds varied; history 'complete run, then run again'; oracle: sha256 the consumer read through the FIFO == sha256 the producer wrote (both logged by the commands), consumer output == reference, at the instant Run returns no FIFO and no regular file at the stream path, consumer audit names the producer under Upstream[stream path], hang classification incl. FIFO-blocked children (wchan), re-run terminates and leaves inode/mtime/bytes of consumer outputs untouched. distinct_nontrivial = distinct (n, max, size, exit order, mixed, config) runs whose byte comparison was made")
 	c.Assume("one consumer per streaming port; maxConcurrentTasks >= 2n (each producer and its consumer can run at the same time)")
 	rng := c.Rand("c17")
 	type job struct {
@@ -61,6 +61,8 @@ func c17(args []string) {
 		rerun        bool
 		pc, cc       int  // cores per task of the producer / the consumer (0: default)
 		fanin        bool // a second producer process streams into the same in-port of the consumer
+		chatter      bool // the producers print 220 kB of progress lines to stdout / stderr
+		cshape       int  // re-run histories: where the consumer's own output lies (0 plain, 1 parent-relative, 2 absolute, 3 nested)
 		cfg          Cfg
 	}
 	var jobs []*job
@@ -118,7 +120,7 @@ func c17(args []string) {
 	for _, n := range []int{1, 2} {
 		for _, mixed := range []bool{true, false} {
 			for r := 0; r < c.Pick(1, 4); r++ {
-				jobs = append(jobs, &job{n: n, max: 2 * n, size: 70000, order: "none", mixed: mixed, rerun: true, cfg: Cfg{Buf: 128, Procs: 4, SoftSec: 5}})
+				jobs = append(jobs, &job{n: n, max: 2 * n, size: 70000, order: "none", mixed: mixed, rerun: true, cshape: (n + 2*r) % 4, cfg: Cfg{Buf: 128, Procs: 4, SoftSec: 5}})
 			}
 		}
 	}
@@ -131,6 +133,15 @@ func c17(args []string) {
 			prefix = "st/"
 		}
 		s := streamSpecAt(fmt.Sprintf("st%d", i), j.n, j.max, j.mixed, prefix)
+		if j.rerun && j.mixed {
+			// the consumer's own output below a parent-relative / absolute / nested directory
+			s.Proc("CONS").Outs = []*spec.Out{{Port: "out", Pattern: []string{"{i:in|basename}.consumed", "../cons_up/{i:in|basename}.consumed", root + "/abs/cons/{i:in|basename}.consumed", "c/d/{i:in|basename}.consumed"}[j.cshape]}}
+			s.Dirs = append(s.Dirs, "../cons_up", root+"/abs/cons")
+		}
+		if i%3 == 1 && j.size <= 65537 {
+			// a chatty producer: 220 kB of progress lines on stdout / stderr beside the streamed payload
+			j.chatter = true
+		}
 		prods := []string{"PROD"}
 		if j.pc > 0 {
 			s.Proc("PROD").Cores, s.Proc("CONS").Cores = j.pc, j.cc
@@ -169,6 +180,9 @@ func c17(args []string) {
 			if j.size > 70000 {
 				bh[pn]["pause"] = "20"
 			}
+			if j.chatter {
+				bh[pn]["chatter"] = "220000"
+			}
 		}
 		if j.order == "consumer-last" {
 			bh["CONS"] = map[string]string{"post": "150"}
@@ -177,7 +191,7 @@ func c17(args []string) {
 		if exp.Err != "" {
 			c.Broken("reference cannot evaluate the streaming workflow: " + exp.Err)
 		}
-		desc := map[string]interface{}{"stream_path_prefix": prefix, "n": j.n, "max": j.max, "payload_size": j.size, "exit_order": j.order, "producer_has_regular_output": j.mixed, "producer_cores": j.pc, "consumer_cores": j.cc, "two_producers_one_in_port": j.fanin, "cfg": j.cfg, "spec": s, "behav": bh}
+		desc := map[string]interface{}{"stream_path_prefix": prefix, "n": j.n, "max": j.max, "payload_size": j.size, "exit_order": j.order, "producer_has_regular_output": j.mixed, "producer_cores": j.pc, "consumer_cores": j.cc, "two_producers_one_in_port": j.fanin, "chatty_producer": j.chatter, "cfg": j.cfg, "spec": s, "behav": bh}
 		cfg1 := j.cfg
 		cfg1.SoftSec = 0
 		res := execSpec(c, root, s, cfg1, bh, false, 0)
@@ -210,7 +224,11 @@ func c17(args []string) {
 			}
 			ps = append(ps, mon.ExactlyOnce(ti, exp)...)
 			snap := run.Snap(res.Wd)
-			ps = append(ps, mon.FilesMatch(snap, exp, preSet(s))...)
+			if j.rerun && j.mixed {
+				ps = append(ps, filesMatchRoot(root, exp, s)...) // (the consumer's output may lie outside the working directory)
+			} else {
+				ps = append(ps, mon.FilesMatch(snap, exp, preSet(s))...)
+			}
 			// at the instant Run returned
 			for _, l := range res.Ret.Listing {
 				if l.Mode == "p" || strings.HasSuffix(l.Path, ".fifo") {
@@ -226,7 +244,7 @@ func c17(args []string) {
 			}
 			// audit
 			for _, ct := range exp.ByProc["CONS"] {
-				a, err := mon.LoadAudit(filepath.Join(res.Wd, ct.Outs["out"]+".audit.json"))
+				a, err := mon.LoadAudit(filepath.Join(root, mon.RootRel(root, ct.Outs["out"])+".audit.json"))
 				if err != nil {
 					ps = append(ps, mon.Problem{Sig: "audit-file-unreadable", Msg: err.Error()})
 					continue
@@ -292,7 +310,7 @@ func c17(args []string) {
 			return
 		}
 		// history: complete run, then run again
-		before := run.Snap(res.Wd)
+		before := mon.SnapRoot(root)
 		r2 := execSpec(c, root, s, j.cfg, bh, true, 1)
 		var rp []mon.Problem
 		if r2.Hang != "" {
@@ -317,10 +335,10 @@ func c17(args []string) {
 		} else if r2.Exit != 0 || !r2.Returned {
 			rp = append(rp, mon.Problem{Sig: "rerun-failed", Msg: fmt.Sprintf("re-run exited %d: %s", r2.Exit, tail(r2.Output(), 400))})
 		}
-		after := run.Snap(r2.Wd)
+		after := mon.SnapRoot(root)
 		var outs []string
 		for _, ct := range exp.ByProc["CONS"] {
-			outs = append(outs, filepath.Clean(ct.Outs["out"]))
+			outs = append(outs, mon.RootRel(root, ct.Outs["out"]))
 		}
 		rp = append(rp, statChanges(before, after, outs)...)
 		if r2.Hang == "" {
@@ -337,7 +355,7 @@ func c17(args []string) {
 			return
 		}
 		c.Count("rerun_histories_ok", 1)
-		c.Nontrivial(fmt.Sprintf("rerun|%d|%v", j.n, j.mixed))
+		c.Nontrivial(fmt.Sprintf("rerun|%d|%v|%d", j.n, j.mixed, j.cshape))
 	})
 	c.Finish()
 }
@@ -348,4 +366,29 @@ func keysOfAudit(a *mon.AuditJSON) []string {
 		ks = append(ks, k)
 	}
 	return ks
+}
+
+// filesMatchRoot compares the files below the case root (working directory, parent-relative and absolute areas)
+// with the reference.
+func filesMatchRoot(root string, exp *ref.Result, s *spec.Spec) []mon.Problem {
+	snap := mon.SnapRoot(root)
+	pre := preRootSet(root, s)
+	want := map[string]bool{}
+	var ps []mon.Problem
+	for p, content := range exp.Files {
+		fp := mon.RootRel(root, p)
+		want[fp] = true
+		if e, ok := snap[fp]; !ok {
+			ps = append(ps, mon.Problem{Sig: "file-missing", Msg: p + " is missing"})
+		} else if e.Sha != vproto.Sha(content) {
+			ps = append(ps, mon.Problem{Sig: "file-content", Msg: p + " differs from the reference"})
+		}
+	}
+	for _, p := range snap.Files() {
+		if pre[p] || want[p] || strings.HasSuffix(p, ".audit.json") || strings.Contains(p, "_scipipe_tmp") {
+			continue
+		}
+		ps = append(ps, mon.Problem{Sig: "file-unexpected", Msg: "additional file " + p})
+	}
+	return ps
 }
